@@ -1,0 +1,4 @@
+//! Re-exports for the deterministic-simulation harness in /verif (compiled only with
+//! `--cfg nuts_rs_verif`). Nothing here changes behaviour.
+
+pub use crate::storage::{ChainStorage, StorageConfig, TraceStorage};
